@@ -82,3 +82,13 @@ package stdlib_contracts
 //@ func Search   trusted
 //@   modifies nothing
 //@   ensures 0 <= result && result <= n
+
+//@ package bytes
+
+// a Reader over b: gh("left", reader) is its unread length, gh("readerFor", array of b) remembers the reader made for b
+//@ func NewReader   trusted
+//@   modifies gh("readerFor", arrayOf(b))
+//@   ensures result != nil && fresh(result) && gh("left", ref(result)) == len(b) && gh("readerFor", arrayOf(b)) == ref(result)
+//@ func (*Reader).Len   trusted
+//@   modifies nothing
+//@   ensures result == gh("left", ref(r)) && result >= 0
